@@ -196,9 +196,44 @@ func vsoShardCfg(mode string) config.ShardCountConfig {
 }
 
 func vsoProbe(c vsoCase, out *vsoOut, followBound time.Duration) error {
-	rig, err := vlNewRig(vsoShardCfg(c.Mode), 4, 6)
-	if err != nil {
-		return err
+	// the rig: a fresh ClusterConnection with two well-formed streams held open. On an overloaded machine (several probing
+	// processes, some of them allocating gigabytes) even that can take long: three attempts with a generous bound, and a probe
+	// whose rig still does not come up is reported as skipped (no verdict either way; the check fails as broken when many are)
+	var rig *vlRig
+	var hold, hold2 *vsoStream
+	why := ""
+	for attempt := 0; attempt < 3 && rig == nil; attempt++ {
+		r, err := vlNewRig(vsoShardCfg(c.Mode), 4, 6)
+		if err != nil {
+			why = err.Error()
+			continue
+		}
+		h1, hw, herr, _ := vsoOpen(r, c.Srv, vsoWellFormed(3, vsoHoldShard), 30*time.Second)
+		if hw != "served-open" {
+			why = fmt.Sprintf("the first well-formed stream was not served (%s %v)", hw, herr)
+			if h1 != nil {
+				h1.cancel()
+			}
+			r.close()
+			continue
+		}
+		// a second held stream whose id lies beyond the observer's initial capacity (in the grown part of the counter slice):
+		// its bookkeeping must survive whatever the probed open and its close do to the slice
+		h2, hw2, herr2, _ := vsoOpen(r, c.Srv, vsoWellFormed(2, vsoHold2Shard), 30*time.Second)
+		if hw2 != "served-open" {
+			why = fmt.Sprintf("the second well-formed stream was not served (%s %v)", hw2, herr2)
+			h1.cancel()
+			if h2 != nil {
+				h2.cancel()
+			}
+			r.close()
+			continue
+		}
+		rig, hold, hold2 = r, h1, h2
+	}
+	if rig == nil {
+		out.emit(map[string]interface{}{"ev": "Skipped", "id": c.ID, "why": why})
+		return nil
 	}
 	defer rig.close()
 	obs := rig.cc.inboundObserver
@@ -211,16 +246,6 @@ func vsoProbe(c vsoCase, out *vsoOut, followBound time.Duration) error {
 		resultBound = 120 * time.Second
 	}
 	short := 500 * time.Millisecond
-	hold, hw, herr, _ := vsoOpen(rig, c.Srv, vsoWellFormed(3, vsoHoldShard), 10*time.Second)
-	if hw != "served-open" {
-		return fmt.Errorf("rig not usable: the first well-formed stream was not served (%s %v)", hw, herr)
-	}
-	// a second held stream whose id lies beyond the observer's initial capacity (in the grown part of the counter slice): its
-	// bookkeeping must survive whatever the probed open and its close do to the slice
-	hold2, hw2, herr2, _ := vsoOpen(rig, c.Srv, vsoWellFormed(2, vsoHold2Shard), 10*time.Second)
-	if hw2 != "served-open" {
-		return fmt.Errorf("rig not usable: the second well-formed stream was not served (%s %v)", hw2, herr2)
-	}
 	open := map[string]interface{}{"ev": "Open", "id": c.ID, "n": c.N, "mode": c.Mode, "srv": c.Srv, "key": c.Key, "val": c.Val,
 		"absent": c.Absent, "numeric": c.Numeric, "limbs": c.Limbs}
 	out.emit(open)
@@ -334,8 +359,31 @@ func vsoTracked() []int {
 // observer's active set and (forwarder modes) the tracker's entries are recorded; StreamObsObs compares them with the
 // streams that are open.
 func vsoOverlap(id int, mode, srv string, out *vsoOut) error {
-	rig, err := vlNewRig(vsoShardCfg(mode), 4, 6)
-	if err != nil {
+	// a rig that serves a well-formed stream at all (three attempts, generous bound: an overloaded machine is not a verdict)
+	var rig *vlRig
+	var err error
+	for attempt := 0; attempt < 3 && rig == nil; attempt++ {
+		var r *vlRig
+		if r, err = vlNewRig(vsoShardCfg(mode), 4, 6); err != nil {
+			continue
+		}
+		st, w, e, _ := vsoOpen(r, srv, vsoWellFormed(9, 11), 30*time.Second)
+		if w != "served-open" {
+			err = fmt.Errorf("rig not usable: a well-formed stream was not served (%s %v)", w, e)
+			if st != nil {
+				st.cancel()
+			}
+			r.close()
+			continue
+		}
+		if end, _ := vsoClose(st, 30*time.Second); end != "ok" {
+			err = fmt.Errorf("rig not usable: a well-formed stream did not end (%s)", end)
+			r.close()
+			continue
+		}
+		rig = r
+	}
+	if rig == nil {
 		return err
 	}
 	defer rig.close()
@@ -345,7 +393,7 @@ func vsoOverlap(id int, mode, srv string, out *vsoOut) error {
 	}
 	// the tracker is process-wide: wait until earlier rigs' streams are gone
 	base := -1
-	for k := 0; k < 100; k++ {
+	for k := 0; k < 400; k++ {
 		if base = len(vsoTracked()); base == 0 {
 			break
 		}
@@ -379,7 +427,7 @@ func vsoOverlap(id int, mode, srv string, out *vsoOut) error {
 		steps = append(steps, map[string]interface{}{"what": what, "open": ids, "streams": all, "twin": twin, "printer": pr, "active": act, "tracked": trk})
 	}
 	op := func(key, csh, ssh int) {
-		st, w, _, _ := vsoOpen(rig, srv, vsoWellFormed(csh, ssh), 10*time.Second)
+		st, w, _, _ := vsoOpen(rig, srv, vsoWellFormed(csh, ssh), 30*time.Second)
 		if w != "served-open" {
 			notServed++
 			if st != nil {
@@ -391,7 +439,7 @@ func vsoOverlap(id int, mode, srv string, out *vsoOut) error {
 	}
 	cl := func(key int) {
 		if st := open[key]; st != nil {
-			if e, _ := vsoClose(st, 10*time.Second); e != "ok" {
+			if e, _ := vsoClose(st, 30*time.Second); e != "ok" {
 				notServed++
 			}
 			delete(open, key)
